@@ -1418,6 +1418,11 @@ func main() {
 	r.Cases("seq", r.N(40000, 2000000), ev.Opt{HangViolation: true}, seqCase)
 	r.Cases("zero", r.N(3*len(zeroMethods)*2*4, 3*len(zeroMethods)*2*200), ev.Opt{HangViolation: true}, zeroCase)
 	r.Cases("tall", r.N(3000, 150000), ev.Opt{HangViolation: true}, tallCase)
+	r.Cases("waves", r.N(420, 12000), ev.Opt{HangViolation: true}, wavesCase)
+	r.Require("waves", 800)
+	r.Require("waves_ebb_below_64_after_peak_of_64_or_more", 700)
+	r.Require("waves_ebb_below_64_after_peak_of_1024_or_more", 150)
+	r.Require("waves_removed_key_probed_at_low_tide", 100000)
 	r.Cases("parallel-private", r.N(40, 1000), ev.Opt{Workers: 2}, parallelCase)
 	// the same under the race detector: state shared between lists that no goroutine shares is
 	// reported from the happens-before relation, whether or not the accesses collide in this run
